@@ -2,7 +2,9 @@
 From Coq Require Import String.
 From V Require Import Common.Base C08.SortPerm C08.Comparators C08.CmpTheory C08.ComparatorProofs
   C08.Dfs C08.DfsProofs C08.Serializer C08.SerializerProofs gen.MapSitesGen C08.MapSites C08.MapSitesProofs
-  C08.Diagnostics C08.Scanner C08.ScannerProofs C08.Consumers gen.SortKeysGen C08.CollectSort.
+  C08.Diagnostics C08.Scanner C08.ScannerProofs C08.Consumers gen.SortKeysGen C08.CollectSort
+  C08.ScannerReach C08.SiteModels C08.ComposeHash C08.ComposeMetafile.
+From V Require C18.Hash C18.Ingredients C19.Doc C19.DocProofs.
 From Coq Require Import Permutation Sorted.
 
 (* ================= order-insensitivity of sorting and folding ================= *)
@@ -350,3 +352,121 @@ Print Assumptions regular_sites_order_independent.
 Theorem sorted_after_sites_regular_or_listed : sorted_after_regular_or_listed = true.
 Proof. exact sorted_after_regular_or_listed_true. Qed.
 Print Assumptions sorted_after_sites_regular_or_listed.
+
+(* ================= round 2 ================= *)
+
+(* ---- (a) the scan phase terminates and parses exactly the reachable files ---- *)
+Theorem scan_visits_exactly_reachable :
+  forall imports roots sched st,
+  run_scan imports (fst (scan_init roots)) sched = Some st -> scan_complete st = true ->
+  forall f, visited st f <-> reach imports roots f.
+Proof. exact scan_visits_exactly_reachable_gen. Qed.
+Print Assumptions scan_visits_exactly_reachable.
+
+(* no run, under any schedule, receives more results than there are files *)
+Theorem scan_run_bounded :
+  forall imports roots universe, (forall r, In r roots -> In r universe) ->
+  (forall f c, In f universe -> In c (imports f) -> In c universe) ->
+  forall sched st, run_scan imports (fst (scan_init roots)) sched = Some st ->
+  (length sched + length (sc_pend st) = length (sc_vis st))%nat /\ (length sched <= length universe)%nat.
+Proof. exact scan_run_bounded_gen. Qed.
+Print Assumptions scan_run_bounded.
+
+(* no deadlock: a pending result can always be received, and every run can be completed *)
+Theorem scan_can_complete :
+  forall imports roots universe, (forall r, In r roots -> In r universe) ->
+  (forall f c, In f universe -> In c (imports f) -> In c universe) ->
+  forall sched st, run_scan imports (fst (scan_init roots)) sched = Some st ->
+  exists more st', run_scan imports st more = Some st' /\ scan_complete st' = true.
+Proof. exact scan_can_complete_gen. Qed.
+Print Assumptions scan_can_complete.
+
+(* FULL schedule independence of the scan phase: two complete runs have the
+   same outcome up to the renaming of source indices *)
+Theorem scan_phase_schedule_independent :
+  forall imports roots sched1 sched2 st1 st2,
+  run_scan imports (fst (scan_init roots)) sched1 = Some st1 -> scan_complete st1 = true ->
+  run_scan imports (fst (scan_init roots)) sched2 = Some st2 -> scan_complete st2 = true ->
+  (forall f, visited st1 f <-> visited st2 f) /\
+  sc_next st1 = sc_next st2 /\
+  (forall f, visited st1 f ->
+     graph_of_scan st1 (index_of_file st1 f) = map (index_of_file st1) (imports f) /\
+     graph_of_scan st2 (index_of_file st2 f) = map (index_of_file st2) (imports f)) /\
+  (forall f g, index_of_file st1 f = index_of_file st1 g -> f = g) /\
+  (forall f g, index_of_file st2 f = index_of_file st2 g -> f = g).
+Proof. exact scan_phase_schedule_independent_gen. Qed.
+Print Assumptions scan_phase_schedule_independent.
+
+(* ---- (b) per-site models beyond the regular shape ---- *)
+(* the five irregular sorted-afterwards sites: each has its own model and theorem *)
+Theorem irregular_sites_order_independent :
+  (forall s P, In (s, P) irregular_models -> P) /\
+  list_eqb site_eqb (map fst irregular_models) irregular_sorted_after = true.
+Proof. exact (conj irregular_models_hold irregular_models_cover). Qed.
+Print Assumptions irregular_sites_order_independent.
+
+(* the fold sites whose body T4 recognises as set-insert / per-key-write / flag-or *)
+Theorem shaped_fold_sites_order_independent :
+  forall s k, In (s, k) shaped_fold_sites -> shape_statement k /\ fold_class s = true.
+Proof. exact shaped_sites_forall. Qed.
+Print Assumptions shaped_fold_sites_order_independent.
+
+(* ---- (c) hashing and naming (composition with C18) ---- *)
+(* the order of files inside a chunk is the same, as files, in any two runs *)
+Theorem chunk_file_order_schedule_independent :
+  forall imports roots sched1 sched2 st1 st2 fuel (dist : Z -> Z),
+  run_scan imports (fst (scan_init roots)) sched1 = Some st1 ->
+  run_scan imports (fst (scan_init roots)) sched2 = Some st2 ->
+  scan_complete st1 = true -> scan_complete st2 = true ->
+  forall files,
+    isort (fun a b => chunkOrder_less (as_chunk_order st1 (linker_order st1 fuel roots) dist a) (as_chunk_order st1 (linker_order st1 fuel roots) dist b)) files
+    = isort (fun a b => chunkOrder_less (as_chunk_order st2 (linker_order st2 fuel roots) dist a) (as_chunk_order st2 (linker_order st2 fuel roots) dist b)) files.
+Proof. exact chunk_order_two_schedules. Qed.
+Print Assumptions chunk_file_order_schedule_independent.
+
+(* if two builds agree chunk by chunk on the hash ingredients (C18), the path
+   template, the cross-chunk import indices and the asset references, then the
+   streams hashed into the final hashes agree ... *)
+Theorem final_hash_streams_schedule_independent :
+  forall (H : bytes -> bytes) public asset_rel cs1 cs2, lists_agree public asset_rel cs1 cs2 ->
+  C18.Hash.final_streams H public asset_rel cs1 = C18.Hash.final_streams H public asset_rel cs2.
+Proof. exact final_streams_agree. Qed.
+Print Assumptions final_hash_streams_schedule_independent.
+(* ... and so do all output names *)
+Theorem final_names_schedule_independent :
+  forall (H : bytes -> bytes) public asset_rel cs1 cs2, lists_agree public asset_rel cs1 cs2 ->
+  names_of H public asset_rel cs1 = names_of H public asset_rel cs2.
+Proof. exact names_agree. Qed.
+Print Assumptions final_names_schedule_independent.
+
+(* ---- (d) metafile (composition with C19) ---- *)
+(* a list rendered per reachable file, in stable order, is the same in any two runs *)
+Theorem metafile_inputs_order_schedule_independent :
+  forall imports roots sched1 sched2 st1 st2 fuel,
+  run_scan imports (fst (scan_init roots)) sched1 = Some st1 ->
+  run_scan imports (fst (scan_init roots)) sched2 = Some st2 ->
+  scan_complete st1 = true -> scan_complete st2 = true ->
+  forall (A : Type) (D d1 d2 : Z -> A),
+  (forall f, d1 (index_of_file st1 f) = D f) -> (forall f, d2 (index_of_file st2 f) = D f) ->
+  option_map (map d1) (linker_order st1 fuel roots) = option_map (map d2) (linker_order st2 fuel roots).
+Proof. exact (fun imports roots s1 s2 st1 st2 fuel r1 r2 d1 d2 A => per_file_lists_agree imports roots s1 s2 st1 st2 fuel r1 r2 d1 d2 (A:=A)). Qed.
+Print Assumptions metafile_inputs_order_schedule_independent.
+
+(* the bytes of the metafile (C19 metafile_of) are the same in any two runs *)
+Theorem metafile_schedule_independent :
+  forall imports roots sched1 sched2 st1 st2 fuel,
+  run_scan imports (fst (scan_init roots)) sched1 = Some st1 ->
+  run_scan imports (fst (scan_init roots)) sched2 = Some st2 ->
+  scan_complete st1 = true -> scan_complete st2 = true ->
+  forall mini ascii prefix nf nc pathOf (Din din1 din2 : Z -> C19.Doc.input)
+         (sort : list (list Z) -> list (list Z)) (Cout : list Z -> C19.Doc.chunk) keys1 keys2
+         (extra : list (bytes * C19.Doc.chunk)) o1 o2,
+  (forall f, din1 (index_of_file st1 f) = Din f) -> (forall f, din2 (index_of_file st2 f) = Din f) ->
+  linker_order st1 fuel roots = Some o1 -> linker_order st2 fuel roots = Some o2 ->
+  IsSort str_ltb sort -> Permutation keys1 keys2 ->
+  C19.Doc.metafile_of mini ascii prefix nf nc pathOf (map din1 o1)
+      (C19.DocProofs.link_results pathOf extra (map Cout (sort keys1)))
+  = C19.Doc.metafile_of mini ascii prefix nf nc pathOf (map din2 o2)
+      (C19.DocProofs.link_results pathOf extra (map Cout (sort keys2))).
+Proof. exact metafile_two_schedules. Qed.
+Print Assumptions metafile_schedule_independent.
